@@ -888,6 +888,10 @@ class Harness:
             real.insert(a, new_real[0])
         elif how == "del":
             del real[a]
+        elif how == "del-neg":  # the same item addressed from the end
+            del real[a - len(real)]
+        elif how == "pop":
+            real.pop() if a == len(real) - 1 else real.pop(a)
         elif how == "clear":
             real.clear()
         elif how == "assign":
@@ -910,7 +914,8 @@ class Harness:
         if parent is None or not parent.kids:
             return
         i = int(op[2]) % len(parent.kids)
-        self.edit(parent, i, i + 1, [], "del")
+        how = ("del", "del-neg", "pop")[int(op[2]) // len(parent.kids) % 3]
+        self.edit(parent, i, i + 1, [], how)
 
     def op_slice(self, op):
         parent = self.pick(self.list_containers(), op[1])
@@ -1101,7 +1106,7 @@ def _item(depth):
 
 def _ops(max_ops, item_depth):
     ci = st.integers(0, 11)
-    idx = st.integers(0, 8)
+    idx = st.integers(0, 23)
     item = _item(item_depth)
     posval = st.one_of(
         st.tuples(st.just("v"), st.integers(0, 5)),
